@@ -51,8 +51,8 @@ def to_lark(g):
     lines = ['%s: %s' % (n, ' | '.join(' '.join(r) for r in alts)) for n, alts in g.items()]
     return '\n'.join(lines) + '\nA: "a"\nB: "b"\nC: "c"\n'
 
-L = 4 if tier == 'quick' else 6
-K = 5          # extension length explored to decide viability
+L = 4 if tier == 'quick' else 5
+K = L + 2      # extension length explored to decide viability: the longest minimal completion of a prefix of length L in these grammars is L + 1 (a^n -> c b^n)
 for g in GS:
     rec = make_recogniser(g)
     sentences = {''.join(w) for n in range(0, L + K + 1) for w in itertools.product(ALPHA, repeat=n)} if False else None
